@@ -50,7 +50,7 @@ class Frame:
 
 
 class State:
-    __slots__ = ('frames', 'heap', 'pc', 'extras', 'flags', 'dirty', 'status', 'result', 'inexact', 'nondet', 'conc', 'lastj', 'raw')
+    __slots__ = ('frames', 'heap', 'pc', 'extras', 'flags', 'dirty', 'status', 'result', 'inexact', 'nondet', 'conc', 'lastj', 'raw', 'lkey')
 
     def fork(self):
         s = State()
@@ -67,6 +67,7 @@ class State:
         s.conc = self.conc
         s.lastj = self.lastj
         s.raw = self.raw
+        s.lkey = None
         return s
 
 
@@ -109,6 +110,9 @@ class Executor:
         self.concretise_shifts = False
         self.lazy_forks = False
         self.fx = None
+        self.cost_mode = False
+        self._bigcanon = {}
+        self.cost_oid = None
         self._returned = False
 
     # ==================================================================
@@ -465,6 +469,7 @@ class Executor:
             if ea['kind'] == 'int' and ea['bits'] == 8:
                 cells = self.slice_cells(st, x)
                 self.alloc_event(st, len(cells), pos, 'string')
+                self.add_cost(st, len(cells), pos)
                 return ('Z', cells)
             if ea['kind'] == 'int' and ea['bits'] == 32:
                 cells = self.slice_cells(st, x)
@@ -661,6 +666,16 @@ class Executor:
                 if loose and v[1].__class__ is Term:
                     return ('D', ('?', 64))
                 return v
+            if tag == 'A' and len(v[1]) > 4096:
+                # large buffers: canonical form memoised by identity of the cell tuple
+                ent = self._bigcanon.get(id(v[1]))
+                if ent is not None and ent[0] is v[1] and ent[2] == loose:
+                    return ent[1]
+                r = ('A', tuple([cv(x) for x in v[1]]))
+                if len(self._bigcanon) > 64:
+                    self._bigcanon.clear()
+                self._bigcanon[id(v[1])] = (v[1], r, loose)
+                return r
             if tag == 'T' or tag == 'A' or tag == 'U':
                 return (tag, tuple([cv(x) for x in v[1]]))
             if tag == 'I':
@@ -841,6 +856,15 @@ class Executor:
             s = self.pending.pop(key, None)
             if s is None:
                 continue
+            lk = s.lkey
+            if lk is not None:
+                # forget the merge candidate entry of a state that starts running (bounds memory)
+                ents = self.loose.get(lk)
+                if ents is not None:
+                    ents[:] = [en for en in ents if en[1] is not s]
+                    if not ents:
+                        del self.loose[lk]
+                s.lkey = None
             self._advance(s, True)
         return list(self.terminals.values())
 
@@ -880,6 +904,7 @@ class Executor:
                 self.stats['merges'] += 1
                 return
             ents.append((key, st, queue))
+            st.lkey = lkey
         self.pending[key] = st
         fr = st.frames[-1]
         pr = (st.pc.idx, -len(st.frames), fr.block.rpo)
@@ -1130,6 +1155,8 @@ class Executor:
             oid = self.newobj(st, z, ('alloc', ins['pos'], ins.get('comment', '')))
             if ins.get('heap') and self.monitor_alloc:
                 self.alloc_event(st, 1, ins['pos'], 'alloc')
+            if ins.get('heap') and self.cost_mode:
+                self.add_cost(st, self.elemsize(ins['elem']), ins['pos'])
             env[ins['name']] = ('P', oid, ())
             return None
         if op == 'MakeInterface':
@@ -1143,6 +1170,13 @@ class Executor:
         if op == 'MakeSlice':
             ln = val(st, fr, ins['len'])
             cp = val(st, fr, ins['cap'])
+            if self.cost_mode and cp.__class__ is Term and ln.__class__ is int and ln == 0:
+                # capacity given by a symbolic size hint: virtual capacity, nothing materialised
+                esz = self.elemsize(self.prog.types[ins['type']]['elem'])
+                self.add_cost(st, self.store.mk('mul', 64, cp, esz), fr.fn.short + ':make-slice')
+                oid = self.newobj(st, ('A', ()), ('alloc', ins['pos'], 'makeslice'))
+                env[ins['name']] = ('S', oid, (), 0, 0, cp)
+                return None
             if ln.__class__ is Term:
                 ln = self.concretise(st, ln, 'make len')
             if cp.__class__ is Term:
@@ -1157,6 +1191,8 @@ class Executor:
             z = self.prog.zero(et)
             oid = self.newobj(st, ('A', (z,) * sc), ('alloc', ins['pos'], 'makeslice'))
             self.alloc_event(st, sc, ins['pos'], 'makeslice')
+            if self.cost_mode:
+                self.add_cost(st, sc * self.elemsize(et), fr.fn.short + ':make-slice')
             env[ins['name']] = ('S', oid, (), 0, sl, sc)
             return None
         if op == 'Index':
@@ -1202,6 +1238,8 @@ class Executor:
             r = ins.get('reserve')
             rv = val(st, fr, r) if r is not None else 0
             self.alloc_event(st, rv, ins['pos'], 'makemap')
+            if self.cost_mode:
+                self.add_cost(st, self.store.mk('add', 64, self.store.mk('mul', 64, rv, 48), 48), fr.fn.short + ':make-map')
             env[ins['name']] = ('M', oid)
             return None
         if op == 'MapUpdate':
@@ -1400,6 +1438,16 @@ class Executor:
             obj, path, off, ln, cp = x[1], x[2], x[3], x[4], x[5]
             if hi is None:
                 hi = ln
+            if cp.__class__ is Term:
+                if mx is not None or not (lo <= hi <= ln):
+                    raise Unsupported('slicing beyond the length of a slice with symbolic capacity')
+                if obj is None:
+                    fr.env[ins['name']] = NILSLICE
+                    return None
+                if lo != 0:
+                    raise Unsupported('re-slicing a symbolic-capacity slice from a non-zero offset')
+                fr.env[ins['name']] = ('S', obj, path, off, hi, cp)
+                return None
             if mx is None:
                 mx = cp
             if not (lo <= hi <= mx <= cp):
@@ -1487,6 +1535,36 @@ class Executor:
         return None
 
     # ------------------------------------------------------------------
+    def add_cost(self, st, amount, site):
+        """C20: bytes requested from the allocator on this path (int or 64-bit term), with the sites
+        whose amount is symbolic (depends on a size hint)"""
+        if not self.cost_mode:
+            return
+        tot, syms = st.heap[self.cost_oid][1]
+        if amount.__class__ is Term:
+            syms = ('U', syms[1] + (('U', (('Z', tuple(site.encode())), amount)),))
+        tot = self.store.mk('add', 64, tot, amount) if (tot.__class__ is Term or amount.__class__ is Term) else (tot + amount) & mask(64)
+        st.heap[self.cost_oid] = ('A', (tot, syms))
+        if self.cost_oid not in st.dirty:
+            st.dirty = st.dirty | {self.cost_oid}
+
+    def elemsize(self, tid):
+        t = self.prog.types[tid]
+        k = t['kind']
+        if k == 'int' or k == 'float':
+            return max(1, t.get('bits', 64) // 8)
+        if k == 'bool':
+            return 1
+        if k in ('iface', 'string'):
+            return 16
+        if k == 'slice':
+            return 24
+        if k == 'struct':
+            return sum(self.elemsize(f['type']) for f in (t.get('fields') or [])) or 1
+        if k == 'array':
+            return self.elemsize(t['elem']) * t['len']
+        return 8
+
     def alloc_event(self, st, size, pos, kind):
         """heap allocation monitor (C19). Active only while the harness has switched the watch on.
         Which source lines heap-allocate is taken from the compiler's own escape analysis
@@ -1667,6 +1745,20 @@ class Executor:
             return s
         ln, cp = s[4], s[5]
         need = ln + len(add)
+        if cp.__class__ is Term:
+            # virtual capacity from a size hint
+            if self.take(st, self.store.mk('ule', 0, need, cp)):
+                arr = self.getpath(st.heap[s[1]], s[2])
+                cells = arr[1][:s[3] + ln] + tuple(add)
+                st.heap[s[1]] = self.setpath(st.heap[s[1]], s[2], ('A', cells))
+                return ('S', s[1], s[2], s[3], need, cp)
+            old = self.slice_cells(st, s)
+            newcap = 2 * need
+            et = self.prog.types[ins['type']]['elem']
+            cells = tuple(old) + tuple(add) + (self.prog.zero(et),) * (newcap - need)
+            oid = self.newobj(st, ('A', cells), ('alloc', ins['pos'], 'append'))
+            self.add_cost(st, newcap * self.elemsize(et), ins['pos'])
+            return ('S', oid, (), 0, need, newcap)
         if need <= cp and s[1] is not None:
             self.write_cells(st, s, ln, add, ins['pos'])
             return ('S', s[1], s[2], s[3], need, cp)
@@ -1679,6 +1771,8 @@ class Executor:
         cells = tuple(old) + tuple(add) + (z,) * (newcap - need)
         oid = self.newobj(st, ('A', cells), ('alloc', ins['pos'], 'append'))
         self.alloc_event(st, newcap, ins['pos'], 'append-grow')
+        if self.cost_mode:
+            self.add_cost(st, newcap * (self.elemsize(et) if et is not None else 1), ins['pos'])
         return ('S', oid, (), 0, need, newcap)
 
     # ------------------------------------------------------------------
@@ -1687,6 +1781,7 @@ class Executor:
         if name == 'fmt.Errorf':
             oid = self.newobj(st, ('T', (args[0],)), ('error', pos))
             self.alloc_event(st, 1, pos, 'fmt.Errorf')
+            self.add_cost(st, 64, pos)
             return ('I', '*fmt.wrapError', ('P', oid, ()))
         if name == 'fmt.Sprintf':
             self.alloc_event(st, 1, pos, 'fmt.Sprintf')
@@ -1816,6 +1911,9 @@ class Executor:
         st.conc = ()
         st.lastj = None
         st.raw = ()
+        st.lkey = None
+        if self.cost_mode:
+            self.cost_oid = self.newobj(st, ('A', (0, ('U', ()))), ('cost', ''))
         return st
 
     def freeze(self):
